@@ -76,9 +76,14 @@ def run_driver(crate_dir, crate_name, mode="wit", features=(), cfgs=(), cargo_ar
     key = h.hexdigest()[:32]
     cached = os.path.join(FACTS, key + ".json")
     cached_diag = os.path.join(FACTS, key + ".diag.json")
-    if os.path.exists(cached_diag) and not os.environ.get("VERIF_NO_CACHE"):
+    hit = os.path.exists(cached_diag) and not os.environ.get("VERIF_NO_CACHE")
+    if hit:
         with open(cached_diag) as f:
             diags = json.load(f)
+        # a successful compile has a fact file next to its diagnostics; if pruning separated the pair, recompute
+        if not os.path.exists(cached) and not any(d["level"] in ("error", "error: internal compiler error") for d in diags):
+            hit = False
+    if hit:
         facts = None
         for used in (cached_diag, cached):
             try:
@@ -228,14 +233,22 @@ def prune_cache(cap_bytes=None):
             pass
     if total <= cap_bytes:
         return 0
-    entries.sort()
-    freed = 0
+    # files of one cache key (`<key>.json`, `<key>.diag.json`, `<key>.rs`, `<key>.fail.json`) go together
+    groups = {}
     for mtime, size, path in entries:
+        k = os.path.join(os.path.dirname(path), os.path.basename(path).split(".")[0])
+        g = groups.setdefault(k, [0.0, 0, []])
+        g[0] = max(g[0], mtime)
+        g[1] += size
+        g[2].append(path)
+    freed = 0
+    for mtime, size, paths in sorted(groups.values()):
         if total - freed <= cap_bytes * 0.7:
             break
-        try:
-            os.unlink(path)
-            freed += size
-        except OSError:
-            pass
+        for path in paths:
+            try:
+                os.unlink(path)
+            except OSError:
+                pass
+        freed += size
     return freed
